@@ -21,6 +21,7 @@ def start_texts(tier, kind):
         texts += X.flat_chains(3, ["2", "-3", "x", "2x", "x^2", "4x^2", "y"], ("+", "-", "*"))
         texts += X.same_op_groupings(4)
         texts += X.deep_chains()
+        texts += X.unary_wrapped_groupings()
         texts += [t for t in X.FOLD_MAGNITUDES if "=" not in t]
         if tier == "thorough":
             texts += X.power_nests()
@@ -278,6 +279,7 @@ def small_texts(kind):
         t += X.termsums(2, X.TERMS_Q)
         t += X.termsums(3, ["2", "-3", "x", "4x", "x^2", "y"], ["+", "*", "-"])
         t += X.flat_chains(3, ["2", "x", "3x", "x^2", "y", "-3"], ("+", "*"))
+        t += X.unary_wrapped_groupings()[::5]
         return t
     t = [x for x in X.repo_inputs(REPO) if "=" in x and len(x) <= 30]
     t += X.equations(["2", "-3", "x", "2x", "x^2", "3y"], ("+", "-", "*"))
